@@ -62,6 +62,11 @@ def run(tier):
         if len(ck.samples) < 2 and len(bodies) >= 2:
             ck.sample({"main": p["steps"][0][1][:700], "modules": [(a, b[:300]) for a, b in p["mods"][:3]], "expected_output": v["out"][:12]})
 
+    rd = ck.rng.fork("deepimport")
+    for i in range(200 if quick else 6000 * common.TS):
+        _s, _m = feat_mod.deep_import_program(rd.fork(str(i)))
+        plist.append({"name": "deepimport/%d" % i, "steps": [("snip", _s)], "mods": _m})
+
     # interplay: this check's programs inside stacks of other features' constructs, and every profile's programs inside
     # this feature's constructs (vfpy/gen/feat_ctx.py); the model decides what they must print
     from ..gen import feat_ctx as _ctx
